@@ -54,17 +54,6 @@ structure MKI where
   numAnonReceivers : Nat
   deriving Repr, DecidableEq, Inhabited
 
-/-- one call on a long-term key object, as the application's key interfaces
-    see it (property C12) -/
-inductive KeyCall where
-  | unbox (secret peer nonce msg : Bytes)
-  | box (secret peer nonce msg : Bytes)
-  | precompute (secret peer : Bytes)
-  | sharedUnbox (secret peer nonce msg : Bytes)
-  | sharedBox (secret peer nonce msg : Bytes)
-  | sign (secret msg : Bytes)
-  deriving Repr, DecidableEq
-
 namespace Decrypt
 section
 variable (P : Prims)
